@@ -10,6 +10,7 @@ CONSTANTS
   AfterSizes = {3}
   ReqModes = {"page", "after", "before"}
   MaxN = 5
+  MaxN1 = 5
   MaxN2 = 3
   ScoresSorted = {0, 1, 2}
   ScoresOther = {1}
